@@ -69,6 +69,12 @@ struct Cfg {
     /// Some(w): the literal's type (result type / switch selector type) is declared as a signed w-bit integer first and
     /// the 32-bit literal arguments have all their high bits set (a sign-extended negative narrow value)
     narrow: Option<u32>,
+    /// Some((from_begin, k)): the block holds two instructions and the call inserts at FromBegin(k) / FromEnd(k)
+    ip: Option<(bool, usize)>,
+    /// the block is opened with begin_block_no_label
+    no_label: bool,
+    /// a second, terminated block exists behind the one the call is made into (with reselect_terminated: the FIRST block is re-selected)
+    two_blocks: bool,
 }
 
 fn needs_block(site: &CallSite) -> bool {
@@ -106,6 +112,8 @@ fn check_site(site: &CallSite, cfg: &Cfg) -> SiteResult {
     if cfg.narrow.is_some() {
         args.u32_base = 0xFFFF_F000;
     }
+    args.ip_override = cfg.ip;
+    args.lit64_pairs = cfg.narrow == Some(64);
     // ids are taken from the builder: a pool of 320 is reserved up front and the arguments are drawn from it
     args.word_base = 1;
     args.word_step = 16;
@@ -117,7 +125,7 @@ fn check_site(site: &CallSite, cfg: &Cfg) -> SiteResult {
     let rep = json!({"kind": "builder-call", "method": site.name, "config": cfg_s, "cfg": {
         "explicit_id": cfg.explicit_id, "opt_upto": if cfg.opt_upto == usize::MAX { -1i64 } else { cfg.opt_upto as i64 }, "list_len": cfg.list_len,
         "choice_at": cfg.choice_at.map(|(a, b)| vec![a, b]), "in_block": cfg.in_block, "insert_begin": cfg.insert_begin,
-        "version_late": cfg.version_late, "prior_identical": cfg.prior_identical, "reselect_terminated": cfg.reselect_terminated, "narrow": cfg.narrow}});
+        "version_late": cfg.version_late, "prior_identical": cfg.prior_identical, "reselect_terminated": cfg.reselect_terminated, "narrow": cfg.narrow, "ip": cfg.ip.map(|(a, b)| json!([a, b])), "no_label": cfg.no_label, "two_blocks": cfg.two_blocks}});
     let mut out = SiteResult { viols: vec![], c16: vec![], outcome: "checked" };
     // a parameterised mask whose parameters cannot be expressed through this method's signature: the single
     // `additional_params` list comes after a LATER value parameter, so the grammar order is not reachable
@@ -165,13 +173,34 @@ fn check_site(site: &CallSite, cfg: &Cfg) -> SiteResult {
         }
         if block_ctx {
             b.begin_function(rty, Some(fid), spirv::FunctionControl::NONE, fty).map_err(|e| ("setup".to_string(), format!("{:?}", e)))?;
-            b.begin_block(Some(lid)).map_err(|e| ("setup".to_string(), format!("{:?}", e)))?;
+            if cfg.no_label {
+                b.begin_block_no_label(Some(lid)).map_err(|e| ("setup".to_string(), format!("{:?}", e)))?;
+            } else {
+                b.begin_block(Some(lid)).map_err(|e| ("setup".to_string(), format!("{:?}", e)))?;
+            }
+            if cfg.two_blocks {
+                // a second, complete block behind the first one; then back into the first
+                b.ret().map_err(|e| ("setup".to_string(), format!("{:?}", e)))?;
+                let l2 = b.id();
+                b.begin_block(Some(l2)).map_err(|e| ("setup".to_string(), format!("{:?}", e)))?;
+                b.ret().map_err(|e| ("setup".to_string(), format!("{:?}", e)))?;
+                b.select_block(Some(0)).map_err(|e| ("setup".to_string(), format!("{:?}", e)))?;
+                if !cfg.reselect_terminated {
+                    b.pop_instruction().map_err(|e| ("setup".to_string(), format!("{:?}", e)))?;
+                }
+            }
+            if cfg.ip.is_some() {
+                for _ in 0..2 {
+                    let uid = b.id();
+                    b.undef(rty, Some(uid));
+                }
+            }
             if cfg.insert_begin {
                 // an instruction no measured call can emit identically (its result id is one no call receives)
                 let uid = b.id();
                 b.undef(rty, Some(uid));
             }
-            if cfg.reselect_terminated {
+            if cfg.reselect_terminated && !cfg.two_blocks {
                 b.ret().map_err(|e| ("setup".to_string(), format!("{:?}", e)))?;
                 b.select_block(Some(0)).map_err(|e| ("setup".to_string(), format!("{:?}", e)))?;
             }
@@ -250,7 +279,7 @@ fn check_site(site: &CallSite, cfg: &Cfg) -> SiteResult {
             return Err(("operands".into(), format!("emitted {} ; the call's arguments in grammar order are {}", emitted.short(), expected.short())));
         }
         // the block that was selected when the measured call was made, and its length then (insertion at the end)
-        let cur_block = before.iter().filter(|x| x.0.ends_with(".label")).count().saturating_sub(1);
+        let cur_block = if cfg.two_blocks { 0 } else { before.iter().filter(|x| x.0.ends_with(".label")).count().saturating_sub(1) };
         let want_path = if in_blk { format!("f0.b{}", cur_block) } else { where_expected(site, false) };
         if path != want_path {
             return Err(("placement".into(), format!("emitted into {}, expected {}", path, want_path)));
@@ -260,7 +289,11 @@ fn check_site(site: &CallSite, cfg: &Cfg) -> SiteResult {
             let has_ip = site.params.iter().any(|p| p.ty == Ty::InsertPoint);
             let at_end = before.iter().filter(|x| x.0 == want_path).count();
             // InsertPoint::Begin: in front of the one instruction (OpUndef) the setup put into the block
-            let want_idx = if cfg.insert_begin && has_ip { at_end - 1 } else { at_end };
+            let want_idx = match (cfg.ip, has_ip) {
+                (Some((true, k)), true) => k,
+                (Some((false, k)), true) => at_end - k,
+                _ => if cfg.insert_begin && has_ip { at_end - 1 } else { at_end },
+            };
             if idx_in_block != want_idx {
                 return Err(("placement".into(), format!("emitted at index {} of the block, expected {}", idx_in_block, want_idx)));
             }
@@ -281,7 +314,7 @@ fn check_site(site: &CallSite, cfg: &Cfg) -> SiteResult {
         }
         // a terminator inserted in front of other instructions leaves a block the loader would split differently:
         // the round trip is only meaningful when the terminator is last
-        let terminator_not_last = in_blk && cfg.reselect_terminated || in_blk && cfg.insert_begin && g.in_class("terminator", site.opcode) && site.params.iter().any(|p| p.ty == Ty::InsertPoint);
+        let terminator_not_last = in_blk && (cfg.no_label || cfg.two_blocks) || in_blk && cfg.ip.map_or(false, |(fb, k)| g.in_class("terminator", site.opcode) && site.params.iter().any(|p| p.ty == Ty::InsertPoint) && !(fb && k == 2 || !fb && k == 0)) || in_blk && cfg.reselect_terminated || in_blk && cfg.insert_begin && g.in_class("terminator", site.opcode) && site.params.iter().any(|p| p.ty == Ty::InsertPoint);
         if b.selected_function().is_some() {
             b.end_function().map_err(|e| ("setup".to_string(), format!("{:?}", e)))?;
         }
@@ -344,7 +377,7 @@ fn check_site(site: &CallSite, cfg: &Cfg) -> SiteResult {
 }
 
 fn configs(site: &CallSite, tier: Tier) -> Vec<Cfg> {
-    let base = Cfg { explicit_id: false, opt_upto: usize::MAX, list_len: 2, choice_at: None, in_block: false, insert_begin: false, version_late: false, prior_identical: false, reselect_terminated: false, narrow: None };
+    let base = Cfg { explicit_id: false, opt_upto: usize::MAX, list_len: 2, choice_at: None, in_block: false, insert_begin: false, version_late: false, prior_identical: false, reselect_terminated: false, narrow: None, ip: None, no_label: false, two_blocks: false };
     let mut v = vec![base.clone(), Cfg { version_late: true, ..base.clone() }];
     let has_id = site.params.iter().any(is_result_id_param);
     let has_ip = site.params.iter().any(|p| p.ty == Ty::InsertPoint);
@@ -370,10 +403,22 @@ fn configs(site: &CallSite, tier: Tier) -> Vec<Cfg> {
         for w in [8, 16, 32] {
             v.push(Cfg { narrow: Some(w), ..base.clone() });
         }
+        if site.name == "switch" {
+            // a 64-bit selector defined by an instruction that has no operands (OpUndef), 64-bit case literals
+            v.push(Cfg { narrow: Some(64), ..base.clone() });
+        }
     }
     if has_ip || needs_block(site) {
         v.push(Cfg { insert_begin: true, ..base.clone() });
         v.push(Cfg { reselect_terminated: true, ..base.clone() });
+        v.push(Cfg { no_label: true, ..base.clone() });
+        v.push(Cfg { two_blocks: true, ..base.clone() });
+        v.push(Cfg { two_blocks: true, reselect_terminated: true, ..base.clone() });
+    }
+    if has_ip {
+        for ip in [(true, 0), (true, 1), (true, 2), (false, 0), (false, 1), (false, 2)] {
+            v.push(Cfg { ip: Some(ip), ..base.clone() });
+        }
     }
     // every enumerant / mask variation of each value parameter, one position at a time (quick: a strided subset)
     for (i, p) in site.params.iter().enumerate() {
@@ -735,6 +780,9 @@ fn main() {
                     prior_identical: c["prior_identical"].as_bool()?,
                     reselect_terminated: c["reselect_terminated"].as_bool().unwrap_or(false),
                     narrow: c["narrow"].as_u64().map(|x| x as u32),
+                    ip: c["ip"].as_array().and_then(|a| Some((a.first()?.as_bool()?, a.get(1)?.as_u64()? as usize))),
+                    no_label: c["no_label"].as_bool().unwrap_or(false),
+                    two_blocks: c["two_blocks"].as_bool().unwrap_or(false),
                 };
                 let res = check_site(site, &cfg);
                 Some(res.viols.iter().chain(res.c16.iter()).map(|v| v.what.clone()).collect())
@@ -782,10 +830,23 @@ fn main() {
         // machine-readable output for vcheck C16
         let mut vs = vec![];
         let mut seen = HashSet::new();
-        for r in &res {
+        for ((site, _cfg), r) in work.iter().zip(res.iter()) {
             for v in &r.c16 {
                 if seen.insert(v.key.clone()) {
                     vs.push(json!({"key": v.key, "what": v.what, "replay": v.replay}));
+                }
+            }
+            // a termination instruction that is refused, put into another block or not emitted did not END the block it
+            // was called on either
+            if golden().in_class("terminator", site.opcode) {
+                for v in &r.viols {
+                    let class = v.key.rsplit(':').next().unwrap_or("");
+                    if matches!(class, "placement" | "call-failed" | "emitted-count") {
+                        let key = format!("C16:builder-ends-block:{}:{}", site.opcode, class);
+                        if seen.insert(key.clone()) {
+                            vs.push(json!({"key": key, "what": format!("(a termination instruction must end the block it is called on) {}", v.what), "replay": v.replay}));
+                        }
+                    }
                 }
             }
         }
